@@ -7,7 +7,7 @@ ENGINE = 'E1 full product (writer level) + end-to-end tap'
 RULE = ("same writer-level product as C01 with position-dependent bodies (tails 01, 0202, 0c*12 so that a pad-count "
         "mix-up changes the reassembly) and sequences of 1-3 records of different LogicalRecord classes; end-to-end: four specifications written through DLISFile.write at "
         "every vrl of the list, the bodies handed to the segmenter are learnt through a harness-installed wrapper of "
-        "LogicalRecordBytes.make_segments and compared with the reassembled file; non-trivial "
+        "LogicalRecordBytes.make_segments and compared with the reassembled file (also over a longer / shorter file already at the target path); non-trivial "
         "= write succeeded and the reassembled record list was compared with the given one")
 ASSUMPTIONS = ["strict reader mc/rp66.py (self-tested at start) is the trusted oracle"]
 
